@@ -186,6 +186,21 @@ def put_and_readback(seed, n=14, utf8_only=False, alphabet_paths=None, td=None, 
                 continue         # name too long for the path etc.
             used.add(full)
             entries.append({'path': full, 'vol': vol, 'top': top, 'kind': kind})
+            if rnd.random() < 0.15 and len(name) < 200:
+                # what an interrupted run left long ago: an info WITHOUT payload under the very name this entry will want,
+                # longer than the one to be written and hours old.  It is somebody's entry all the same: not to be reused.
+                tdp = os.fsencode(box.tdir('c' if td else 'home' if vol == 'R' else 't2'))
+                try:
+                    os.makedirs(tdp + b'/info', exist_ok=True)
+                    os.makedirs(tdp + b'/files', exist_ok=True)
+                    stale = tdp + b'/info/' + name + b'.trashinfo'
+                    if not os.path.lexists(stale):
+                        with open(stale, 'wb') as f:
+                            f.write(world.format_info(b'/long/ago/' + b'x' * 300 + b'/' + name, '1999-01-01T00:00:00')
+                                    + b'X-Note=left by an interrupted run\n')
+                        os.utime(stale, (1000000000, 1000000000))
+                except OSError:
+                    pass
         # real trash-put, a few arguments per invocation
         k = 0
         while k < len(entries):
@@ -490,6 +505,19 @@ def foreign_readers(seed, n=10, home_own_volume=False):
                 f.write(b'payload %d' % i)
             ents.append({'kind': kind, 'tdir': tdir, 'slot': slot, 'content': content, 'strict': strict, 'i': i, 'linked': linked,
                          'td_arg': link_td if linked else os.fsdecode(tdir)})
+        # a damaged neighbour (C19): an info whose tail was zeroed after a crash - it still has a Path= line, with NUL bytes
+        # in it, naming a place that has nothing to do with the others.  Whatever it gets, the others are owed the same.
+        poisoned = False
+        if ents and rnd.random() < 0.35:
+            e0 = rnd.choice(ents)
+            pc = rnd.choice([b'[Trash Info]\nPath=/zz/poison' + b'\x00' * 40,
+                             b'[Trash Info]\nPath=/zz/po\x00ison\nDeletionDate=2020-01-01T00:00:00\n',
+                             b'[Trash Info]\nDeletionDate=2020-01-01T00:00:00\nPath=zz/rel\x00\x00\n'])
+            with open(e0['tdir'] + b'/info/zz-poison.trashinfo', 'wb') as f:
+                f.write(pc)
+            with open(e0['tdir'] + b'/files/zz-poison', 'wb') as f:
+                f.write(b'poison payload')
+            poisoned = True
         # what each reader sees: we do not know the paths in advance (that is the question), so outputs are parsed by
         # stripping the date prefix of each record; records are delimited using the payload-path column of --files
         views = {}
@@ -530,6 +558,25 @@ def foreign_readers(seed, n=10, home_own_volume=False):
                             'date': (parse_date_field(rp[1]) or NONE) if rp else NONE, 'datechecked': rp is not None,
                             'kind': e['kind'], 'orig_rel': is_relative(e['content']),
                             'note': 'restore must show what list shows'})
+        # trash-restore asked for the directory the entry was trashed from (not for /): the entry is offered there too
+        for e in ents[:3]:
+            lp = e['list']
+            if not lp or lp[0] is None or not lp[0].startswith(b'/') or b'//' in lp[0] or b'/./' in lp[0] or lp[0].endswith(b'/'):
+                continue
+            if e['kind'] == 'home' and is_relative(e['content']):
+                continue       # the known finding of C20: list and restore resolve such a Path against different bases
+            parent = os.path.dirname(lp[0])
+            if parent in (b'', b'/') or b'\n' in parent:
+                continue
+            rres2 = box.run('trash-restore', (['--trash-dir', e['td_arg']] if e['kind'] == 'c' else []) + ['--', parent], stdin=b'')
+            m = re.search(rb'^\s*\d+ (\S+ \S+|None) ' + re.escape(lp[0]) + rb'$', rres2['stdout'], re.M)
+            date_l = parse_date_field(lp[1])
+            obs.append({'f': 'meaning', 'reader': 'restore-from-parent', 'content': B(b'Path=' + world.escape(lp[0]) + b'\n'), 'base': B(b'/'),
+                        'path': B(lp[0]) if m else NONE, 'date': NONE, 'datechecked': False, 'kind': e['kind'],
+                        'orig_rel': is_relative(e['content']),
+                        'note': 'restore asked for the parent directory must offer the entry%s; exit %s %s' % (
+                            ' (a damaged neighbour is present)' if poisoned else '', rres2['exit'],
+                            rres2['stderr'][-200:].decode('utf-8', 'replace'))})
         # rm / empty agreement on a sample
         rnd.shuffle(ents)
         for e in ents[:4]:
@@ -556,8 +603,19 @@ def foreign_readers(seed, n=10, home_own_volume=False):
                 d0 = datetime.datetime(*date_l) + datetime.timedelta(days=days)
                 for delta, _ in ((0, False), (1, True)):
                     nowdt = d0 + datetime.timedelta(seconds=delta)
+                    # the neighbours in the same directory are judged by the date trash-list shows for THEM (an entry for
+                    # which it shows none is kept, whatever was examined before it)
+                    others = [o2 for o2 in ents if o2 is not e and o2['tdir'] == e['tdir'] and o2.get('list') and o2['strict']
+                              and os.path.lexists(o2['tdir'] + b'/info/' + o2['slot'] + b'.trashinfo')]
                     box.run('trash-empty', ['--trash-dir', td, str(days)],
                             env={'TRASH_DATE': nowdt.strftime('%Y-%m-%dT%H:%M:%S')})
+                    for o2 in others:
+                        d2 = parse_date_field(o2['list'][1])
+                        obs.append({'f': 'expired', 'content': B(b'DeletionDate=%04d-%02d-%02dT%02d:%02d:%02d\n' % tuple(d2)) if d2 else B(b'Path=/undated\n'),
+                                    'now': [nowdt.year, nowdt.month, nowdt.day, nowdt.hour, nowdt.minute, nowdt.second], 'days': days,
+                                    'purged': not os.path.lexists(o2['tdir'] + b'/info/' + o2['slot'] + b'.trashinfo'),
+                                    'note': 'a neighbour of the probed entry: empty must compare the date list shows for it (%s)' % (
+                                        o2['list'][1][:30].decode('latin-1'))})
                     gone = not os.path.lexists(e['tdir'] + b'/info/' + e['slot'] + b'.trashinfo')
                     obs.append({'f': 'expired', 'content': B(b'DeletionDate=%04d-%02d-%02dT%02d:%02d:%02d\n' % tuple(date_l)),
                                 'now': [nowdt.year, nowdt.month, nowdt.day, nowdt.hour, nowdt.minute, nowdt.second],
@@ -903,6 +961,14 @@ def restore_scope(seed):
         if rnd.random() < 0.1:
             dirp = b'/'
         sort = rnd.choice(['date', 'path', 'none'])
+        if rnd.random() < 0.3:
+            # since the entries were trashed, the directory they came from has been moved elsewhere and a symbolic link left in
+            # its place: the recorded locations (and the request, spelled as ever) are what counts, not where the link leads now
+            try:
+                os.makedirs(rootb + b'/a.moved/' + rnd.choice(SCOPE_NAMES))
+                os.symlink(b'a.moved', rootb + b'/a')
+            except OSError:
+                pass
         res = box.run('trash-restore', ['--sort', sort, dirp], stdin=b'')
         known = {p: 1 for p in locs}
         shown = parse_known(res['stdout'], known)
